@@ -139,6 +139,7 @@ def bosonic (j : Json) : R Json := do
   | "reducedBosonic" => pure <| out (reducedBosonic n modes)
   | "backendState" => pure <| out (bosonicBackendState n modes)
   | "ind" => pure <| natList (bosonicInd modes)
+  | "displacementInd" => pure <| natList (bosonicDisplacementInd modes)
   | "walrus" =>
     let k := modes.length
     pure <| natList ((List.range (2 * k)).map fun a => (interleaved modes).getD (toXXPP k a) 0)
